@@ -148,7 +148,18 @@ def main(argv=None):
     repo = os.environ.get("REDUINO_REPO", "/repo")
     t0 = time.time()
     cm = importlib.import_module(modname)
-    reg = cm.build()
+    build_error = None
+    try:
+        reg = cm.build()
+    except Exception as ex:
+        # the contract module cannot be set up on this tree (e.g. the emitted helper templates are outside the translator's reach after a
+        # change): no unit is proved, but the executed / finite obligations and the verdict protocol still apply - a harness failure is
+        # never by itself a verdict about the property
+        from pyvc.contracts import Registry
+        tool_limit = type(ex).__name__ in ("Untranslatable", "ToolLimit")
+        build_error = {"unit": "<contract module set-up>", "variant": "", "status": "toollimit" if tool_limit else "crash",
+                       "detail": f"{type(ex).__name__}: {str(ex)[-600:]}", "obligations": [], "time": 0.0, "file": "<set-up>", "paths": 0, "inlined": [], "unrolled": []}
+        reg = Registry()
     meta = getattr(cm, "PROPERTY", {})
     files = sorted({f for (f, _) in reg.contracts if f != "<extern>"})
     try:
@@ -171,8 +182,11 @@ def main(argv=None):
     base_path0 = os.path.join(ROOT, "baseline", f"{pid}.json")
     _G["pinned_locals"] = json.load(open(base_path0)).get("locals", {}) if os.path.exists(base_path0) else {}
     _G["pinned_roles"] = json.load(open(base_path0)).get("roles", {}) if os.path.exists(base_path0) else {}
-    with mp.Pool(a.jobs, initializer=_init, initargs=(modname,)) as pool:
-        results = pool.map(_job, jobs, chunksize=1)
+    if build_error is None:
+        with mp.Pool(a.jobs, initializer=_init, initargs=(modname,)) as pool:
+            results = pool.map(_job, jobs, chunksize=1)
+    else:
+        results = [build_error]
 
     # ---- second chance for solver timeouts: a variant with `unknown` obligations is re-proved alone (no load from the
     #      other 15 workers) with three times the budget, so that a verdict does not flip because the machine was busy
